@@ -94,7 +94,7 @@ func (p *FSimpleServer) accept(client thrift.TTransport) error {
 
 	for {
 		err := processor.Process(iprot, oprot)
-		if err, ok := err.(thrift.TTransportException); ok && err.TypeId() == TRANSPORT_EXCEPTION_END_OF_FILE {
+		if terr, ok := err.(thrift.TTransportException); ok && terr.TypeId() == TRANSPORT_EXCEPTION_END_OF_FILE {
 			return nil
 		} else if err != nil {
 			logger().Printf("error processing request: %s", err)
